@@ -53,6 +53,7 @@ UNIT = VUnit(
         Enum("NumberBuiltin", source="src/builtins/number.rs"),
         Enum("ProcessCommandBuiltin", source="src/builtins/process.rs"),
         Enum("ProcessResultBuiltin", source="src/builtins/process.rs"),
+        Enum("MemberBuiltin", source="src/builtins/mod.rs"),
         Enum("HostValue", source="src/process.rs", derive="", rewrites=[Rw("R12", r"ProcessCommand<'a>", "CmdV"), Rw("R12", r"ProcessResult<'a>", "ResV")]),
         Enum("Value", derive="", rewrites=[
             Rw("R12", r"ArenaCow<'a>", "StrV"), Rw("R12", r"Vec<Value<'a>, &'a Arena>", "ArrV"), Rw("R12", r"HostHandle<'a>", "HostV"),
